@@ -47,6 +47,7 @@ class Universe(object):
         self.timeout_none = timeout_none
         self.G = gates
         self.R = regs
+        self.extra_none = set()  # registrations made without an extra argument
         base = 2
         self.TASK0 = base
         self.FUT0 = self.TASK0 + tasks
@@ -1857,7 +1858,7 @@ class StmtLowering(object):
                 upd["cb_data[{0}]".format(j)] = data
                 upd["cb_exc[{0}]".format(j)] = exc
                 upd["cb_extra[{0}]".format(j)] = extra
-                upd["cb_wrong_extra"] = or_(env.g("cb_wrong_extra"), ne(extra, U.EXTRA0 + j))
+                upd["cb_wrong_extra"] = or_(env.g("cb_wrong_extra"), ne(extra, NONE if j in U.extra_none else U.EXTRA0 + j))
                 kind = U.cb_kinds[j]
                 if kind == "raise":
                     upd[env.lname("exc")] = U.EXC_CB
